@@ -329,7 +329,7 @@ func (c *Ctx) typeAssert(i *ssa.TypeAssert, x Iface) Value {
 		return Tuple{val, Bool(ok)}
 	}
 	if !ok {
-		panic(&goPanic{what: fmt.Sprintf("interface conversion: %v is not %s", x.t, i.AssertedType), pos: c.curPos})
+		panic(&goPanic{what: fmt.Sprintf("interface conversion: %v is not %s", x.t, i.AssertedType), pos: c.cp()})
 	}
 	return val
 }
@@ -367,7 +367,7 @@ func (c *Ctx) mapLookup(m *Map, k Value, et types.Type) (Value, *Term) {
 
 func (c *Ctx) mapUpdate(m *Map, k, v Value) {
 	if m == nil {
-		panic(&goPanic{what: "assignment to entry in nil map", pos: c.curPos})
+		panic(&goPanic{what: "assignment to entry in nil map", pos: c.cp()})
 	}
 	for idx := range m.keys {
 		eq := c.valEq(m.keys[idx], k)
@@ -387,7 +387,7 @@ func (c *Ctx) builtin(b *ssa.Builtin, args []Value) Value {
 	switch b.Name() {
 	case "ssa:wrapnilchk":
 		if p, ok := args[0].(*Ptr); ok && p == nil {
-			panic(&goPanic{what: "value method called on nil pointer", pos: c.curPos})
+			panic(&goPanic{what: "value method called on nil pointer", pos: c.cp()})
 		}
 		return args[0]
 	case "len":
